@@ -16,7 +16,7 @@ func sp(s string) *string { return &s }
 
 // c08Failing is the menu of requests that must fail (the fault sequence of C08: the library has
 // no other failure source). Every one is predicted by the model to be rejected without effect.
-func c08Failing(keys []val.Item, thorough bool) []drv.Op {
+func c08Failing(keys []val.Item, thorough, twoIdx bool) []drv.Op {
 	var ops []drv.Op
 	add := func(tag string, o drv.Op) {
 		o.Tag = "FAIL:" + tag
@@ -68,6 +68,12 @@ func c08Failing(keys []val.Item, thorough bool) []drv.Op {
 		// index key type mismatch: the failure arises after the base-table step
 		add("Put(index key wrong type)", drv.Op{K: drv.KPut, Item: with(k, "g", val.N("5"), "a", val.S("bad"))})
 		add("Upd(SET index key to wrong type)", drv.Op{K: drv.KUpd, Key: k, Upd: rx.U(rx.Set("g", rx.RV(":n")), rx.Set("a", rx.RV(":v"))), Values: map[string]val.V{":n": val.N("5"), ":v": val.S("bad")}})
+		if twoIdx {
+			// two indexes: the item is ill-typed for one of them and well-typed for the other
+			add("Put(second index key wrong type)", drv.Op{K: drv.KPut, Item: with(k, "g", val.S("x"), "a", val.N("5"))})
+			add("Upd(SET second index key to wrong type)", drv.Op{K: drv.KUpd, Key: k, Upd: rx.U(rx.Set("a", rx.RV(":n")), rx.Set("g", rx.RV(":v"))), Values: map[string]val.V{":n": val.N("5"), ":v": val.S("y")}})
+			add("Upd(SET first index key to wrong type, REMOVE second)", drv.Op{K: drv.KUpd, Key: k, Upd: rx.U(rx.Set("g", rx.RV(":n")), rx.Remove("a")), Values: map[string]val.V{":n": val.N("5")}})
+		}
 		// key-changing update
 		add("Upd(SET h)", drv.Op{K: drv.KUpd, Key: k, Upd: rx.U(rx.Set("h", rx.RV(":v"))), Values: sv})
 		add("Upd(REMOVE h)", drv.Op{K: drv.KUpd, Key: k, Upd: rx.U(rx.Remove("h"))})
@@ -106,39 +112,45 @@ func C08(run *ev.Run, tier string) map[string]interface{} {
 		keys = append(keys, hKey("k3"))
 	}
 	cfg := c03cfg{name: "GSI-hash", cfg: drv.TableCfg{Hash: "h", HashT: "S", Billing: "PAY_PER_REQUEST", GSI: []drv.IndexCfg{{Name: "gsi", Hash: "g", HashT: "S"}}}, keys: keys, clearOp: false}
-	writes := c03Alphabet(cfg)
-	failing := c08Failing(keys, thorough)
+	cfg2 := c03cfg{name: "two-GSI", cfg: drv.TableCfg{Hash: "h", HashT: "S", Billing: "PAY_PER_REQUEST", GSI: []drv.IndexCfg{{Name: "gsi", Hash: "g", HashT: "S"}, {Name: "gsi2", Hash: "a", HashT: "S"}}}, keys: keys, clearOp: false}
 	u := Universe{Keys: map[string][]val.Item{"tab": keys, "other": {}}}
 	failCount := 0
 	total, per := exploreBoth(run, func(newImpl func() drv.Driver, dn string) []mc.Sys {
-		return []mc.Sys{{
-			Name:    "C08",
-			NewImpl: newImpl,
-			Init:    []drv.Op{{K: drv.KCreate, Table: "tab", Cfg: &cfg.cfg}},
-			Alphabet: func(m *model.Model) []drv.Op {
-				ops := append([]drv.Op{}, writes(m)...)
-				for _, f := range failing {
-					if dn == "v1" && f.K == drv.KQuery && f.KeyStr == nil && f.KeyCond == nil {
-						continue
+		var out []mc.Sys
+		for i, cfg := range []c03cfg{cfg, cfg2} {
+			cfg := cfg
+			writes := c03Alphabet(cfg)
+			failing := c08Failing(keys, thorough, i == 1)
+			failCount = len(failing)
+			out = append(out, mc.Sys{
+				Name:    "C08/" + cfg.name,
+				NewImpl: newImpl,
+				Init:    []drv.Op{{K: drv.KCreate, Table: "tab", Cfg: &cfg.cfg}},
+				Alphabet: func(m *model.Model) []drv.Op {
+					ops := append([]drv.Op{}, writes(m)...)
+					for _, f := range failing {
+						if dn == "v1" && f.K == drv.KQuery && f.KeyStr == nil && f.KeyCond == nil {
+							continue
+						}
+						ops = append(ops, f)
 					}
-					ops = append(ops, f)
-				}
-				return ops
-			},
-			Observe: func(m *model.Model) []drv.Op { return ObserveOps(m, u) },
-			// C08 speaks about calls that fail: a menu request the implementation accepts is not
-			// this property's business (strictness is C09/C13/C16's)
-			Skip:      func(op drv.Op, got drv.Resp) bool { return strings.HasPrefix(op.Tag, "FAIL:") && got.Err == "" },
-			SigOf:     mc.DefaultSig("C08"),
-			MaxStates: 500000,
-			Deadline:  dl,
-		}}
+					return ops
+				},
+				Observe: func(m *model.Model) []drv.Op { return ObserveOps(m, u) },
+				// C08 speaks about calls that fail: a menu request the implementation accepts is not
+				// this property's business (strictness is C09/C13/C16's)
+				Skip:      func(op drv.Op, got drv.Resp) bool { return strings.HasPrefix(op.Tag, "FAIL:") && got.Err == "" },
+				SigOf:     mc.DefaultSig("C08"),
+				MaxStates: 500000,
+				Deadline:  dl,
+			})
+		}
+		return out
 	})
-	failCount = len(failing)
 	cov := total.Coverage()
 	cov["per_system"] = per
 	cov["failing_request_kinds"] = failCount
-	cov["alphabet"] = "index-affecting writes of C03 (GSI on g:S) that build every reachable state, plus in every state the menu of failing requests: malformed / ill-typed keys for Get/Put/Upd/Del, unknown table, unused and undefined placeholders, syntax errors in condition/update/filter/key condition, ill-typed operands, failed conditions, index-key type mismatch on Put and Upd, key-changing updates, batches with one invalid request, failing table-management calls"
+	cov["alphabet"] = "index-affecting writes of C03 (one system with a GSI on g:S, one with two GSIs on g:S and a:S where an item can be ill-typed for either index) that build every reachable state, plus in every state the menu of failing requests: malformed / ill-typed keys for Get/Put/Upd/Del, unknown table, unused and undefined placeholders, syntax errors in condition/update/filter/key condition, ill-typed operands, failed conditions, index-key type mismatch on Put and Upd, key-changing updates, batches with one invalid request, failing table-management calls"
 	cov["oracle"] = "the model predicts rejection and no change: the response must be an error (or the documented syntax-error panic) and the full observation after the call must equal the model; the successor state is expanded like any other so that latent corruption shows up in later histories"
 	return cov
 }
